@@ -22,6 +22,7 @@ RULE = ("boundary sweep: limit in {0,1,2,10,1023,1024,1025} x pre-existing activ
         "distinct = distinct case line")
 rc.MACHINE_FOR_ENC_FAIL[0] = True      # Run/C06.v runs op 11 on the machine of Model/RollingEnc.v
 ASSUMPTIONS = list(rc.COMMON_ASSUMPTIONS)
+RELEASE_TOO = True          # the sampled cases also run through the release-profile harness (see ./check)
 EXHAUSTIVE = {"quick": False, "thorough": False}
 
 ROLLERS = [[0], [1, 1, 2, 0], [1, 0, 1, 1], [1, 0, 0, 0]]
